@@ -4,6 +4,7 @@ import DaskModel.Model.BlockScan
 import DaskModel.Model.Percentile
 import DaskModel.Model.Masked
 import DaskModel.Model.RandomKeys
+import DaskModel.Model.ChoiceND
 import DaskModel.Model.Contraction
 import DaskModel.Model.ArrayExpr
 import DaskModel.Model.Moment
@@ -432,6 +433,16 @@ def hChoiceGuard : Handler := handler fun args =>
     | none => pure (.list [.sym "raised"])
   | _ => none
 
+/-- `(choicend replace (nchunks per axis))` ↦ `(ok (ns) nblocks)` | `(raised)` -/
+def hChoiceND : Handler := handler fun args =>
+  match args with
+  | [r, ns] => do
+    let ns ← ns.toNats?
+    match Dask.ChoiceND.guardND (← r.toBool?) ns with
+    | some ms => pure (.list [.sym "ok", SExp.ofNats ms, SExp.ofNat (Dask.ChoiceND.nblocks ms)])
+    | none => pure (.list [.sym "raised"])
+  | _ => none
+
 /-! ### C31 -/
 open Dask.Contraction in
 /-- `(contract (cs…) (a…) (b…))` ↦ `((terms…) total full)`: per-block partial dots, their sum, the unblocked dot -/
@@ -534,7 +545,7 @@ def table : List (String × Handler) := [
   ("argpartsnd", ReduceDriver.hArgPartsNd), ("argcomb", ReduceDriver.hArgComb), ("argagg", ReduceDriver.hArgAgg), ("argtreend", ReduceDriver.hArgTreeNd),
   ("mareduce", ReduceDriver.hMaReduce), ("mazip", ReduceDriver.hMaZip), ("mascan", ReduceDriver.hMaScan),
   ("mafilled", ReduceDriver.hMaFilled), ("mawhere", ReduceDriver.hMaWhere), ("mainside", ReduceDriver.hMaInside),
-  ("rngcalls", ReduceDriver.hRngCalls), ("rscalls", ReduceDriver.hRsCalls), ("choiceguard", ReduceDriver.hChoiceGuard),
+  ("rngcalls", ReduceDriver.hRngCalls), ("rscalls", ReduceDriver.hRsCalls), ("choiceguard", ReduceDriver.hChoiceGuard), ("choicend", ReduceDriver.hChoiceND),
   ("rnghist", ReduceDriver.hRngHist), ("rshist", ReduceDriver.hRsHist),
   ("contract", ReduceDriver.hContract), ("blocksumover", ReduceDriver.hBlockSumOver), ("stackgroups", ReduceDriver.hStackGroups), ("cumsumblocks", ReduceDriver.hCumsumBlocks),
   ("aeeval", ReduceDriver.hAeEval), ("aestep", ReduceDriver.hAeStep)]
